@@ -1,4 +1,5 @@
 import Pi2.KoreThm
+import Pi2.KoreTie
 /-!
 # C20 — K execution traces become chained, checkable rewrite proofs
 
@@ -17,6 +18,13 @@ commit F16: a claim may be stated again).
 * chaining: `chain_claims` (one claim per step, in order, each the instantiated rule of its step),
   `chain_links` (each claim is a `kore-rewrites` whose left side is `==` to the configuration the
   previous step reached, the first to the initial configuration), `mismatch_refused`;
+* the TEXT is the model (`Pi2/KoreTie.lean`; `Pi2/Gen/PyKore.lean` is regenerated from
+  `language_semantics.py` / `execution_proof_generation.py` on every run by `vlib/transkore.py`):
+  `kore_conversion_text_is_the_model` (`ConvertionScope`, `_convert_sort`, `_convert_pattern`, `convert_pattern`,
+  `convert_substitutions` are `Scope.resolveMv / resolveSortParam`, `convSort`, `conv`, `convertPattern`,
+  `convertSubst`: plain equations), `rewrite_event_text_is_the_model`, `trace_text_is_the_model`
+  (`rewrite_event = rewriteEventF`, `from_proof_hints = traceF`, up to the order in which fuel runs out),
+  `text_chain` (the chaining theorems stated directly about the translated `from_proof_hints`);
 * acceptance of the serialised module by the checker is NOT a theorem here (the functional
   assumptions use a constrained metavariable, outside the fragment of `module_accepted`): it is decided
   by the real checker on every generated module in the check.
@@ -66,5 +74,100 @@ theorem mismatch_refused (sg : Sig) (n : Nat) (st : ExecSt) (rule : NPat) (σ : 
     (hne : NPat.peqF n lhs st.curr = some false) :
     rewriteEventF sg n st rule σ = some none :=
   Kore.mismatch_refused sg n st rule σ inst rw s lhs rhs ar hi hk hm hne
+
+/-! ## the Python text is the model -/
+section Text
+open PyI PyM PyK Gen.PyKore KoreTie
+
+/-- `ConvertionScope` and the conversion functions of `LanguageSemantics`, as translated from the source text,
+are the model's: for every Python scope object `withScope ps sc` (the dictionaries that the model's scope `sc`
+stands for), every signature, every Kore sort / term of the modelled fragment, every substitution -/
+theorem kore_conversion_text_is_the_model :
+    Gen.PyKore.translated = true ∧
+    (∀ ps sc x, ConvertionScope.resolve_metavar (withScope ps sc) x
+        = ret (withScope ps (sc.resolveMv x).1, mvN (sc.resolveMv x).2)) ∧
+    (∀ ps sc x, ConvertionScope.resolve_sort_param_metavar (withScope ps sc) x
+        = ret (withScope ps (sc.resolveSortParam x).1, mvN (sc.resolveSortParam x).2)) ∧
+    (∀ ps sc x, ConvertionScope.lookup_metavar (withScope ps sc) x = some ((sc.mvs.idxOf? x).map mvN)) ∧
+    (∀ sem ps sc s, LanguageSemantics._convert_sort sem (withScope ps sc) s = lift ps (convSort sem.sg sc s)) ∧
+    (∀ sem ps sc t, LanguageSemantics._convert_pattern sem (withScope ps sc) t = lift ps (conv sem.sg sc t)) ∧
+    (∀ sem t, LanguageSemantics.convert_pattern sem t = some (convertPattern sem.sg t)) ∧
+    (∀ sem ps sc σ ord, sem._cached_axiom_scopes.lookup ord = some (withScope ps sc) →
+      LanguageSemantics.convert_substitutions sem σ ord
+        = match convertSubst sem.sg sc σ [] with
+          | none => some none
+          | some r => ret ({ sem with _cached_axiom_scopes := kSet sem._cached_axiom_scopes ord (withScope ps r.1) }, r.2)) :=
+  ⟨KoreTie.translated, resolve_metavar_eq, resolve_sort_param_metavar_eq, lookup_metavar_eq, convert_sort_eq,
+    convert_pattern_rec_eq, convert_pattern_eq, convert_substitutions_eq⟩
+
+/-- `ExecutionProofExp.rewrite_event`, as translated, is `rewriteEventF` (same fuel): equal results, except that
+the model may already be out of fuel where the text raises (it adds each functional assumption right after
+checking it, the text checks all of them first) -/
+theorem rewrite_event_text_is_the_model (n : Nat) (e : PyExec) (rule : PyRule) (σ : Dict) :
+    (ExecutionProofExp.rewrite_event n e rule σ
+        = liftE e (stepPf rule.pattern σ) (rewriteEventF e.language_semantics.sg n (toSt e) rule.pattern σ)
+      ∨ (rewriteEventF e.language_semantics.sg n (toSt e) rule.pattern σ = none
+          ∧ ExecutionProofExp.rewrite_event n e rule σ = some none)) ∧
+    (∀ r, rewriteEventF e.language_semantics.sg n (toSt e) rule.pattern σ = some r →
+      ExecutionProofExp.rewrite_event n e rule σ = some (r.map fun st => (withSt e st, stepPf rule.pattern σ))) ∧
+    (∀ e' pf, ExecutionProofExp.rewrite_event n e rule σ = some (some (e', pf)) →
+      ∃ st, rewriteEventF e.language_semantics.sg n (toSt e) rule.pattern σ = some (some st) ∧
+        e' = withSt e st ∧ pf = stepPf rule.pattern σ) :=
+  ⟨rewrite_event_eq n e rule σ, fun r h => rewrite_event_of_model n e rule σ r h,
+    fun e' pf h => rewrite_event_success n e e' rule σ pf h⟩
+
+/-- `ExecutionProofExp.from_proof_hints`, as translated, is `traceF` from the configuration before the first hint -/
+theorem trace_text_is_the_model (n : Nat) (sem : PySem) (h0 : PyHint) (hs : List PyHint)
+    (hall : AllRewriting (h0 :: hs)) :
+    ExecutionProofExp.from_proof_hints n (h0 :: hs) sem
+        = (match traceF sem.sg n (initSt h0.configuration_before) ((h0 :: hs).map stepOf) with
+           | none => none
+           | some none => some none
+           | some (some st) => ret (some (withSt (ExecutionProofExp.__init__ sem h0.configuration_before) st)))
+      ∨ (traceF sem.sg n (initSt h0.configuration_before) ((h0 :: hs).map stepOf) = none
+          ∧ ExecutionProofExp.from_proof_hints n (h0 :: hs) sem = some none) :=
+  from_proof_hints_eq n sem h0 hs hall
+
+/-- the chaining theorems about the translated text itself: if `from_proof_hints` returns a proof expression,
+it has one claim per hint, in order, each the instantiated rule of its hint, each a `kore-rewrites` whose left
+side is `==` to the configuration reached so far (the first: the configuration before the first hint), and
+the current configuration is the last right side -/
+theorem text_chain (n : Nat) (sem : PySem) (h0 : PyHint) (hs : List PyHint) (hall : AllRewriting (h0 :: hs))
+    (e' : PyExec) (h : ExecutionProofExp.from_proof_hints n (h0 :: hs) sem = some (some (some e'))) :
+    e'._claims.length = (h0 :: hs).length ∧
+    (∀ i (hi : i < (h0 :: hs).length), ∃ inst, e'._claims[i]? = some inst ∧
+      NPat.instF n ((h0 :: hs)[i]).substitutions (stepOf ((h0 :: hs)[i])).1 = some inst) ∧
+    Linked n h0.configuration_before e'._claims e'._curr_config := by
+  rcases from_proof_hints_eq n sem h0 hs hall with h1 | ⟨_, h1⟩
+  · rw [h] at h1
+    cases hm : traceF sem.sg n (initSt h0.configuration_before) ((h0 :: hs).map stepOf) with
+    | none => rw [hm] at h1; cases h1
+    | some o =>
+      cases o with
+      | none => rw [hm] at h1; cases h1
+      | some st =>
+        rw [hm] at h1
+        simp only [ret, Option.some.injEq] at h1
+        subst h1
+        obtain ⟨insts, hc, hlen, hall'⟩ := Kore.chain_claims sem.sg n _ _ _ hm
+        obtain ⟨insts2, hc2, hlink⟩ := Kore.chain_links sem.sg n _ _ _ hm
+        have hc' : st.claims = insts := by simpa [initSt] using hc
+        have hc2' : st.claims = insts2 := by simpa [initSt] using hc2
+        refine ⟨?_, ?_, ?_⟩
+        · show st.claims.length = _
+          rw [hc', hlen, List.length_map]
+        · intro i hi
+          have hi' : i < ((h0 :: hs).map stepOf).length := by rw [List.length_map]; exact hi
+          obtain ⟨inst, h1, h2⟩ := hall' i hi'
+          refine ⟨inst, ?_, ?_⟩
+          · show st.claims[i]? = _
+            rw [hc']; exact h1
+          · have hg : ((h0 :: hs).map stepOf)[i] = stepOf ((h0 :: hs)[i]) := List.getElem_map ..
+            rw [hg] at h2; exact h2
+        · show Linked n _ st.claims st.curr
+          rw [hc2']; simpa [initSt] using hlink
+  · rw [h] at h1; cases h1
+
+end Text
 
 end C20
